@@ -376,7 +376,8 @@ class Response:
                 filesize = os.fstat(fileno).st_size
                 nbytes = filesize - offset
             else:
-                nbytes = self.response_length
+                # what is left of the declared length (write() may have sent some)
+                nbytes = max(self.response_length - self.sent, 0)
         except (OSError, io.UnsupportedOperation):
             return False
 
